@@ -109,6 +109,8 @@ type model struct {
 	Tracks    map[string]bool   // media kinds of the current description that carry an a=control
 	NoCtl     bool              // the current description has media without a=control
 	Setup     map[string]string // media kind → transport kind of accepted SETUPs
+	Chan      map[string]int    // media kind → RTP interleaved channel of the last ACCEPTED tcp SETUP (RTCP = +1)
+	Port      map[string]int    // media kind → RTP client port of the last ACCEPTED udp SETUP
 	Released  bool              // after a successful TEARDOWN
 	WSPath    string            // != "": ws-rtsp connection to this path (D12)
 	WSP       bool              // WSP control channel: a play-only proxy endpoint (D13)
@@ -118,7 +120,7 @@ type model struct {
 }
 
 func newModel(wsPath string) *model {
-	return &model{Tracks: map[string]bool{}, Setup: map[string]string{}, WSPath: wsPath}
+	return &model{Tracks: map[string]bool{}, Setup: map[string]string{}, Chan: map[string]int{}, Port: map[string]int{}, WSPath: wsPath}
 }
 
 func (m *model) String() string {
@@ -187,6 +189,14 @@ func (m *model) announce(e *env, s *step) expectation {
 func (m *model) setup(e *env, s *step) expectation {
 	took := func(m *model) {
 		m.Setup[s.Track] = s.Trans
+		delete(m.Chan, s.Track)
+		delete(m.Port, s.Track)
+		switch s.Trans {
+		case "tcp":
+			m.Chan[s.Track] = s.chanBase
+		case "udp":
+			m.Port[s.Track] = s.udpPort
+		}
 		if m.St == stInit {
 			m.St = stReady
 		}
